@@ -38,3 +38,15 @@ PROPS["C29"] = dict(
     level_text="Sequential behaviour is enumerated completely up to the stated length (exhaustive for that bound); concurrent behaviour is sampled: each recorded history is decided exactly by the linearizability search, but only the interleavings that occurred are covered.",
     level_note="Trusted base: the reference LRU and the linearizability search in the harness. No claim about interleavings that did not occur.",
 )
+
+PROPS["C27"] = dict(
+    title="Page labels follow the numbering styles of the specification",
+    level="exploration",
+    technique="differential monitor: labels computed by the library for enumerated numbers (every style, 1..N) and for generated range sets x boundary indices, judged offline against an independent formatter written from ISO 32000-1 §12.4.2; panic monitor",
+    stages=[rust(), py("pyref.checks.c27")],
+    rule="(a) every style x every number 1..N (3000 quick / 20000 thorough) through a one-range tree; (b) random trees of 1-6 ranges (styles, prefixes, start values incl. 26/27/52/53/702/703/2^31/u32::MAX) probed at indices around every range boundary. A case is non-trivial when the governing number exceeds 26 (multi-letter / multi-symbol territory) and is counted once per (case, index)",
+    assumptions=["reference formatter pyref/labels.py; Roman numerals above 3999 follow the repeated-M convention"],
+    floors={"quick": {"evaluations": 100_000, "distinct": 20_000}, "thorough": {"evaluations": 1_000_000, "distinct": 200_000}},
+    level_text="Enumerated for single ranges up to N, sampled for range sets; each label is compared with an independent formatter.",
+    level_note="Trusted base: pyref/labels.py (hand vectors). The written /PageLabels number tree is covered with the document checks (C02/C03) once an independent reader parses it.",
+)
